@@ -30,6 +30,9 @@ type globalMaxInflight struct {
 }
 
 type instanceState struct {
+	// lock serializes the reports of one instance: acquire requests of the
+	// same gateway may overlap and arrive out of order.
+	lock      sync.Mutex
 	count     int32
 	requestId int64
 }
@@ -65,50 +68,58 @@ func (f *globalMaxInflight) add(n int32) int32 {
 }
 
 func (f *globalMaxInflight) SetState(instance string, requestId int64, current int32) (bool, int32, error) {
-	f.lock.RLock()
-	state, ok := f.instanceStates[instance]
-	f.lock.RUnlock()
-
 	if current < 0 {
-		if ok {
-			f.lock.Lock()
-			delete(f.instanceStates, instance)
-			f.add(-state.count)
-			f.lock.Unlock()
-			current = 0
-		}
-		return false, -1, nil
-	} else if !ok || state == nil {
+		// The write lock keeps reports out, so the state is looked up, unmapped
+		// and subtracted from the total exactly once, even if removals race.
 		f.lock.Lock()
-		state, ok = f.instanceStates[instance]
-		if !ok || state == nil {
-			state = &instanceState{}
-			f.instanceStates[instance] = state
+		if state, ok := f.instanceStates[instance]; ok {
+			delete(f.instanceStates, instance)
+			f.add(-atomic.LoadInt32(&state.count))
 		}
 		f.lock.Unlock()
+		return false, -1, nil
 	}
 
+	// A state may only be updated while it is mapped, i.e. under the read lock
+	// it was looked up with; otherwise a concurrent removal would leave the
+	// delta of this report in the total forever.
 	f.lock.RLock()
+	state, ok := f.instanceStates[instance]
+	for !ok {
+		f.lock.RUnlock()
+		f.lock.Lock()
+		if _, ok = f.instanceStates[instance]; !ok {
+			f.instanceStates[instance] = &instanceState{}
+		}
+		f.lock.Unlock()
+		f.lock.RLock()
+		state, ok = f.instanceStates[instance]
+	}
 	defer f.lock.RUnlock()
 
+	state.lock.Lock()
+	defer state.lock.Unlock()
+
 	if requestId > 0 {
-		oldId := atomic.LoadInt64(&state.requestId)
-		if requestId <= oldId {
+		if requestId <= state.requestId {
 			return false, current, RequestIDTooOld
 		}
-		atomic.StoreInt64(&state.requestId, requestId)
+		state.requestId = requestId
 	}
 
 	old := atomic.SwapInt32(&state.count, current)
 	delta := current - old
 	overflowed := f.add(delta)
 
-	if overflowed > 0 {
-		atomic.AddInt32(&state.count, -delta)
+	// Only an increase can be refused. A report that lowers the count is always
+	// applied, also while the total exceeds max (the limit was lowered, or an
+	// increase of another instance is about to be rolled back).
+	if delta > 0 && overflowed > 0 {
+		atomic.StoreInt32(&state.count, old)
 		f.add(-delta)
 		return false, old, nil
 	}
-	if overflowed == 0 && current > 0 {
+	if overflowed >= 0 && current > 0 {
 		return false, current, nil
 	}
 	return true, current, nil
